@@ -16,6 +16,11 @@ RULE = ('chemical sets of 1-8 (pool of 16) with 2 user aliases per chemical and 
         'chemicals.index/indices/get_index; key forms: ID / alias / CAS / formula / common and IUPAC names, tuples and lists in any order, groups, nested tuples mixing chemicals and groups, '
         'ellipsis, phase, (phase, key), (..., key), (phase, ...), lower/upper-case phase letters; histories of reads, write-then-read, cross-package mixing (index_overlap) and floods of '
         '>=700 (quick) / >=3000 (thorough) distinct tuple keys per indexer so that the 100-entry and 500-entry caches are filled and evicted. '
+        'Added: SplitIndexer (isplit / kwsplit / split) read and written by every key form; ellipsis and phase-only writes (imol[...], imol[phase], imol[phase, ...], imol[..., ...]) with scalar / list / ndarray / '
+        'sparse-row values; scalar zero written to groups, tuples and nested keys; multi-phase mass indexer writes, volumetric indexers (read, write by names; group write is a documented refusal), '
+        'get_flow / set_flow / get_data / set_data; aliases and groups defined in the middle of a history (caches warm) and alias clashes (rejected, tables unchanged); read keys with repeated chemicals and '
+        'overlapping groups; further entry points (get_index, available_indices, chemicals[name], in, kwarray/array/iarray, ms[phase].imol, get_phase, to_material_indexer); undefined names / phases '
+        'interleaved in the history; single-phase MultiStream; size-1 sets with a group. '
         'non-trivial = key addresses >=2 positions or a group, data has >=2 non-zero entries; distinct = hash of (set, key form, key)')
 MIN_NONTRIVIAL = {'quick': 2000, 'thorough': 50000}
 ASSUMPTIONS = ['names of a chemical are taken from the Chemical object (ID, CAS, aliases, formula, common_name, iupac_name) with the documented rule that a name claimed by two chemicals of the set is dropped',
@@ -24,7 +29,10 @@ POOL = ('Water', 'Ethanol', 'Methanol', 'Propanol', 'Butanol', 'Glycerol', 'Octa
 
 
 def required(tier):
-    return ['read', 'write', 'group-write', 'flood', 'evictions:chemicals-cache', 'evictions:material-cache', 'mix-interleaved', 'read:multi-phase', 'names-one-position', 'fresh-twin', 'expand']
+    return ['read', 'write', 'group-write', 'flood', 'evictions:chemicals-cache', 'evictions:material-cache', 'mix-interleaved', 'read:multi-phase', 'names-one-position', 'fresh-twin', 'expand',
+            'split', 'split:group-write', 'ellipsis-write', 'ellipsis-write:S', 'ellipsis-write:M-phase-only', 'ellipsis-write:M-phase-ellipsis', 'ellipsis-write:M-all-ellipsis', 'value:ndarray', 'value:sparse',
+            'write:zero-to-group', 'write:Mmass', 'vol', 'vol:write', 'unit-access', 'late-alias', 'late-group', 'alias-clash', 'read:overlap', 'entry-points', 'bad-key', 'bad-key:then-read',
+            'single-phase-multistream', 'size-1-set-with-group']
 
 
 class Setup:
@@ -66,6 +74,23 @@ class Setup:
             else: wt = c * MW[idx]; mol = c
             self.groups[g['name']] = {'idx': idx, 'mol': mol / mol.sum(), 'wt': wt / wt.sum()}
 
+    def add_alias(self, ID, alias):
+        """define an alias now (caches may be warm) and record it in the positional model."""
+        self.chems.set_alias(ID, alias)
+        p = self.pos[ID]
+        if alias not in self.pos:
+            self.pos[alias] = p; self.names[p] = sorted(set(self.names[p]) | {alias})
+
+    def add_group(self, g):
+        members = list(g['members']); comp = g.get('comp')
+        self.chems.define_group(g['name'], members, comp, wt=g.get('wt', False))
+        MW = self.chems.MW
+        idx = [self.pos[m] for m in members]
+        c = np.ones(len(members)) if comp is None else np.array(comp, float)
+        if g.get('wt', False): wt = c; mol = c / MW[idx]
+        else: wt = c * MW[idx]; mol = c
+        self.groups[g['name']] = {'idx': idx, 'mol': mol / mol.sum(), 'wt': wt / wt.sum()}
+
     def resolve(self, key):
         """key description -> ('scalar', pos) | ('group', [pos]) | ('array', [pos | [pos]]) | ('all',)"""
         if key == '...': return ('all',)
@@ -104,7 +129,7 @@ def gen_setdef(rng):
     ids = rng.sample(POOL, n)
     groups = []
     for g in range(rng.randrange(0, 4)):
-        if n < 2: break
+        if n < 2 and (g > 0 or rng.random() < 0.5): break
         m = rng.sample(ids, rng.randrange(1, min(4, n) + 1))
         # user groups are disjoint here so that nested write keys never address a position twice
         if any(set(m) & set(gg['members']) for gg in groups): continue
@@ -169,6 +194,9 @@ def run_case(case, rec):
     st.imol.data[:] = D1
     for i in range(len(ms.phases)): ms.imol.data.rows[i][:] = D2[i]
     mphases = list(ms.phases)
+    later = []          # aliases / groups defined in the middle of the history (also given to the fresh twin)
+    if len(mphases) == 1: rec.hit('single-phase-multistream')
+    if n == 1 and S.groups: rec.hit('size-1-set-with-group')
     p_chem = Probe(S.chems._index_cache); p_mat = Probe(ms.imol._index_cache)
     setsig = (tuple(ids), tuple(g['name'] for g in groups))
 
@@ -239,7 +267,7 @@ def run_case(case, rec):
             for _ in range(op['n']):
                 key = gen_key(rng, S, write=True); as_list = rng.random() < 0.3 and not isinstance(key, str)
                 r = S.resolve(key)
-                which = rng.choice(['S', 'M-phase', 'M-all', 'Smass'])
+                which = rng.choice(['S', 'M-phase', 'M-all', 'Smass', 'Mmass'])
                 try:
                     if r[0] == 'scalar': val = round(10 ** rng.uniform(-2, 3), 4) if rng.random() < 0.85 else 0.0
                     elif r[0] == 'group':
@@ -248,6 +276,11 @@ def run_case(case, rec):
                         if any(isinstance(i, list) for i in r[1]) and rng.random() < 0.5: val = round(10 ** rng.uniform(-2, 3), 4)
                         elif rng.random() < 0.2: val = round(10 ** rng.uniform(-2, 3), 4)
                         else: val = [round(10 ** rng.uniform(-2, 3), 4) if rng.random() < 0.9 else 0.0 for _ in r[1]]
+                    # added: a scalar zero written to a group / tuple / nested key (entries are deleted), ndarray values
+                    if r[0] != 'scalar' and not isinstance(val, list) and rng.random() < 0.15:
+                        val = 0.0; rec.hit('write:zero-to-group')
+                    wval = val
+                    if isinstance(val, list) and rng.random() < 0.3: wval = np.array(val, float); rec.hit('value:ndarray')
                     # model: expand to positions
                     def expand(val, basis):
                         out = {}
@@ -266,24 +299,32 @@ def run_case(case, rec):
                         return out
                     k = to_key(key, as_list)
                     if which == 'S':
-                        before = D1.copy(); st.imol[k] = val
+                        before = D1.copy(); st.imol[k] = wval
                         for i, v in expand(val, 'mol').items(): D1[i] = v
                         got = dense_of(st.imol); exp = D1
                         back = st.imol[k]; eback = model_read(S, D1, key)
                     elif which == 'Smass':
                         MW = S.chems.MW
-                        st.imass[k] = val
+                        st.imass[k] = wval
                         for i, v in expand(val, 'wt').items(): D1[i] = v / MW[i]
                         got = dense_of(st.imol); exp = D1
                         back = st.imass[k]; eback = model_read(S, D1 * MW, key)
+                    elif which == 'Mmass':
+                        MW = S.chems.MW
+                        ph = rng.choice(phase_forms(rng.choice(mphases))); row = realphase(ph)
+                        ms.imass[ph, k] = wval
+                        for i, v in expand(val, 'wt').items(): D2[row, i] = v / MW[i]
+                        got = dense_of(ms.imol); exp = D2
+                        back = ms.imass[ph, k]; eback = model_read(S, D2[row] * MW, key)
+                        rec.hit('write:Mmass')
                     elif which == 'M-phase':
                         ph = rng.choice(phase_forms(rng.choice(mphases))); row = realphase(ph)
-                        ms.imol[ph, k] = val
+                        ms.imol[ph, k] = wval
                         for i, v in expand(val, 'mol').items(): D2[row, i] = v
                         got = dense_of(ms.imol); exp = D2
                         back = ms.imol[ph, k]; eback = model_read(S, D2[row], key)
                     else:
-                        ms.imol[..., k] = val
+                        ms.imol[..., k] = wval
                         for i, v in expand(val, 'mol').items(): D2[:, i] = v
                         got = dense_of(ms.imol); exp = D2
                         back = ms.imol[..., k]; eback = np.array([model_read(S, D2[i], key) for i in range(len(mphases))])
@@ -380,6 +421,9 @@ def run_case(case, rec):
         elif t == 'twin':
             # brand-new compiled chemicals and indexers that have seen no other key
             T = Setup(ids, groups)
+            for kind_, a_ in later:
+                if kind_ == 'alias': T.add_alias(*a_)
+                else: T.add_group(a_)
             tst = tmo.Stream(None, thermo=T.thermo); tst.imol.data[:] = D1
             tms = tmo.MultiStream(None, phases=tuple(mphases), thermo=T.thermo)
             for i, q in enumerate(tms.phases): tms.imol.data.rows[i][:] = D2[mphases.index(q)]
@@ -392,6 +436,328 @@ def run_case(case, rec):
                 except Exception as e:
                     rec.exception('fresh-twin', e, what=f'twin lookup of {key!r} raised {type(e).__name__}: {str(e)[:150]}'); continue
                 rec.check(same(a, b, rel=0) and same(c, d, rel=0), 'fresh-twin', 'differs', f'lookup {key!r} on the used indexer differs from a brand-new one: {a} vs {b}; {c} vs {d}')
+        elif t == 'ewrites':
+            # the ellipsis and a bare phase as write keys: the whole vector / one phase row / every phase row
+            for _ in range(op['n']):
+                form = rng.choice(['S', 'M-phase-only', 'M-phase-ellipsis', 'M-all-ellipsis'])
+                vk = rng.choice(['scalar', 'zero', 'list', 'ndarray', 'sparse', 'list'])
+                if vk == 'scalar': val = round(10 ** rng.uniform(-2, 3), 4); mval = np.full(n, val)
+                elif vk == 'zero': val = 0.0; mval = np.zeros(n)
+                else:
+                    mval = np.array([round(10 ** rng.uniform(-2, 3), 4) if rng.random() < 0.7 else 0.0 for _ in range(n)])
+                    if vk == 'list': val = mval.tolist()
+                    elif vk == 'ndarray': val = mval.copy(); rec.hit('value:ndarray')
+                    else:
+                        src = tmo.Stream(None, thermo=S.thermo); src.imol.data[:] = mval
+                        val = src.imol.data; rec.hit('value:sparse')            # a sparse flow vector of another stream
+                try:
+                    if form == 'S':
+                        st.imol[...] = val; D1[:] = mval
+                        got = dense_of(st.imol); exp = D1; back = st.imol[...]; eback = D1
+                    elif form == 'M-phase-only':
+                        ph = rng.choice(phase_forms(rng.choice(mphases))); row = realphase(ph)
+                        ms.imol[ph] = val; D2[row] = mval
+                        got = dense_of(ms.imol); exp = D2; back = ms.imol[ph]; eback = D2[row]
+                    elif form == 'M-phase-ellipsis':
+                        ph = rng.choice(phase_forms(rng.choice(mphases))); row = realphase(ph)
+                        ms.imol[ph, ...] = val; D2[row] = mval
+                        got = dense_of(ms.imol); exp = D2; back = ms.imol[ph, ...]; eback = D2[row]
+                    else:
+                        ms.imol[..., ...] = val; D2[:] = mval
+                        got = dense_of(ms.imol); exp = D2; back = ms.imol[..., ...]; eback = D2
+                except Exception as e:
+                    rec.exception('ellipsis-write', e, what=f'ellipsis / phase-only write {form} with a {vk} value raised {type(e).__name__}: {str(e)[:150]}')
+                    D1[:] = dense_of(st.imol); D2[:] = dense_of(ms.imol); continue
+                okd = rec.check(same(got, exp, rel=0), 'ellipsis-write', f'{form}/data/{vk}-value', f'after {form} write of a {vk} value {np.asarray(mval).tolist()}: data {np.asarray(got).tolist()} but model {np.asarray(exp).tolist()}')
+                rec.check(same(back, eback, rel=0), 'ellipsis-write', f'{form}/read-back/{vk}-value', f'after {form} write of a {vk} value: read-back {np.asarray(back.to_array() if hasattr(back, "to_array") else back).tolist()} expected {np.asarray(eback).tolist()}')
+                if vk == 'sparse':
+                    rec.check(same(src.imol.data, mval, rel=0) and (form != 'S' or src.imol.data is not st.imol.data), 'ellipsis-write', f'{form}/source-untouched', 'writing a sparse flow vector through a key changed (or aliased) the source vector')
+                if not okd: D1[:] = dense_of(st.imol); D2[:] = dense_of(ms.imol)
+                e = sparse_invariant(st.imol.data) or sparse_invariant(ms.imol.data)
+                rec.check(e is None, 'invariant', 'ellipsis-write', f'sparse invariant after an ellipsis write: {e}')
+                rec.hit('ellipsis-write:' + form)
+                p_chem.look(); p_mat.look()
+                if (mval != 0).sum() >= 2: rec.mark_nontrivial(case_hash((setsig, 'EW', form, vk)))
+        elif t == 'split':
+            # SplitIndexer: its own implementation of the four key kinds; groups address their members (no composition, no sum)
+            SP = np.array([round(rng.random(), 3) if rng.random() < 0.7 else 0.0 for _ in range(n)])
+            how = rng.choice(['dict', 'array', 'scalar', 'order'])
+            try:
+                if how == 'dict':
+                    sp = S.chems.isplit({rng.choice(S.names[p]): float(SP[p]) for p in range(n)})
+                elif how == 'array': sp = S.chems.isplit(SP.tolist())
+                elif how == 'scalar': SP[:] = SP[0]; sp = S.chems.isplit(float(SP[0]))
+                else:
+                    order = list(range(n)); rng.shuffle(order)
+                    sp = S.chems.isplit([float(SP[p]) for p in order], [rng.choice(S.names[p]) for p in order])
+                rec.check(same(sp.data, SP, rel=0), 'split', f'construct/{how}', f'isplit from a {how}: data {sp.data.to_array().tolist()} but positional model {SP.tolist()}')
+                kw = {rng.choice(S.names[p]): float(SP[p]) for p in range(n) if rng.random() < 0.6} or {S.names[0][0]: float(SP[0])}
+                ref = np.zeros(n)
+                for nm, v in kw.items(): ref[S.pos[nm]] = v
+                rec.check(same(S.chems.kwsplit(kw), ref, rel=0) and same(S.chems.split(list(kw), list(kw.values())), ref, rel=0), 'split', 'kwsplit', f'kwsplit/split of {kw} differs from the positional array {ref.tolist()}')
+            except Exception as e:
+                rec.exception('split', e, what=f'building a SplitIndexer from a {how} raised {type(e).__name__}: {str(e)[:150]}'); continue
+
+            def split_read(key):
+                r = S.resolve(key)
+                if r[0] == 'all': return [SP.copy()]
+                if r[0] == 'scalar': return [SP[r[1]]]
+                if r[0] == 'group': return [SP[r[1]]]
+                return [SP[i] for i in r[1]]
+
+            def split_same(got, key):
+                r = S.resolve(key)
+                exp = split_read(key)
+                if r[0] in ('all', 'scalar', 'group'): return same(got, exp[0], rel=0)
+                if len(got) != len(exp): return False
+                return all(same(np.asarray(g_, float), e_, rel=0) for g_, e_ in zip(got, exp))
+
+            for _ in range(op['n']):
+                write = rng.random() < 0.5
+                key = gen_key(rng, S, write=False); as_list = rng.random() < 0.3 and not isinstance(key, str)
+                k = to_key(key, as_list)
+                r = S.resolve(key)
+                form = 'ellipsis' if key == '...' else ('str' if isinstance(key, str) else ('list' if as_list else 'tuple'))
+                kind = {'all': 'ellipsis', 'scalar': 'chemical', 'group': 'group'}.get(r[0]) or ('nested' if any(isinstance(i, list) for i in r[1]) else 'array')
+                try:
+                    if write:
+                        fr = lambda: round(rng.random(), 3) if rng.random() < 0.8 else 0.0
+                        if r[0] == 'all':
+                            if rng.random() < 0.5: val = fr(); SP[:] = val
+                            else: val = [fr() for _ in range(n)]; SP[:] = val
+                        elif r[0] == 'scalar': val = fr(); SP[r[1]] = val
+                        elif r[0] == 'group':
+                            if rng.random() < 0.5: val = fr(); SP[r[1]] = val
+                            else: val = [fr() for _ in r[1]]; SP[r[1]] = val
+                            rec.hit('split:group-write')
+                        else:
+                            if rng.random() < 0.35:
+                                val = fr()
+                                for i in r[1]: SP[i] = val
+                            else:
+                                val = []
+                                for i in r[1]:
+                                    if isinstance(i, list) and rng.random() < 0.5: v = [fr() for _ in i]
+                                    else: v = fr()
+                                    val.append(v); SP[i] = v
+                                if kind == 'nested': rec.hit('split:group-write')
+                        sp[k] = val
+                        rec.check(same(sp.data, SP, rel=0), 'split', f'write/data/{kind}/{form}', f'after split[{key!r}] = {val!r}: data {sp.data.to_array().tolist()} but positional model {SP.tolist()}')
+                    got = sp[k]
+                    rec.check(split_same(got, key), 'split', f'{"read-back" if write else "read"}/{kind}/{form}', f'split[{key!r}] = {got!r} but the positional model gives {split_read(key)!r}')
+                except Exception as e:
+                    rec.exception('split', e, what=f'SplitIndexer {"write" if write else "read"} with a {kind} key ({form}) raised {type(e).__name__}: {str(e)[:150]}')
+                    SP[:] = sp.data.to_array()
+                e = sparse_invariant(sp.data)
+                rec.check(e is None, 'invariant', 'split', f'sparse invariant of the split data: {e}')
+                p_chem.look()
+                if kind != 'chemical': rec.mark_nontrivial(case_hash((setsig, 'SP', kind, form, key if isinstance(key, str) else tuple(key))))
+        elif t == 'flows':
+            # volumetric indexers and the unit-converting named access
+            T_, P_ = st.T, st.P
+            Vl = []
+            for c in S.chems:
+                try:
+                    v = c.V(st.phase, T_, P_); Vl.append(1000. * v if (v is not None and np.isfinite(v) and v > 0) else None)
+                except Exception: Vl.append(None)
+            for _ in range(op['n']):
+                what = rng.choice(['vol-read', 'vol-read', 'vol-write', 'get_flow', 'set_flow', 'get_data', 'set_data', 'mvol-read'])
+                key = gen_key(rng, S, write=what in ('vol-write', 'set_flow', 'set_data')); as_list = rng.random() < 0.3 and not isinstance(key, str)
+                k = to_key(key, as_list); r = S.resolve(key)
+                form = 'ellipsis' if key == '...' else ('str' if isinstance(key, str) else ('list' if as_list else 'tuple'))
+                flat = lambda r: list(range(n)) if r[0] == 'all' else ([r[1]] if r[0] == 'scalar' else (r[1] if r[0] == 'group' else [j for i in r[1] for j in (i if isinstance(i, list) else [i])]))
+                hasgroup = r[0] == 'group' or (r[0] == 'array' and any(isinstance(i, list) for i in r[1]))
+                try:
+                    if what in ('vol-read', 'vol-write', 'mvol-read'):
+                        if any(Vl[i] is None for i in flat(r)): rec.refuse('no molar volume model for a chemical in this phase (volumetric key not judged)'); continue
+                        V = np.array([v if v is not None else np.nan for v in Vl])
+                    if what == 'vol-read':
+                        got = st.ivol[k]; exp = model_read(S, np.where(D1 != 0, D1 * V, 0.0), key)
+                        rec.check(same(got, exp, rel=1e-12), 'vol', f'read/{form}', f'ivol[{key!r}] = {np.asarray(got.to_array() if hasattr(got, "to_array") else got).tolist()} but positional model (mol * V) gives {np.asarray(exp).tolist()}')
+                        rec.hit('vol')
+                    elif what == 'mvol-read':
+                        ph = rng.choice(mphases)
+                        try: Vp = np.array([1000. * c.V(ph.lower(), ms.T, ms.P) for c in S.chems], float)
+                        except Exception: rec.refuse('no molar volume model for a chemical in this phase (volumetric key not judged)'); continue
+                        row = D2[mphases.index(ph)]
+                        if not np.all(np.isfinite(Vp[flat(r)])): rec.refuse('no molar volume model for a chemical in this phase (volumetric key not judged)'); continue
+                        got = ms.ivol[ph, k]; exp = model_read(S, np.where(row != 0, row * np.where(np.isfinite(Vp), Vp, 0.0), 0.0), key)
+                        rec.check(same(got, exp, rel=1e-12), 'vol', f'multi-phase-read/{form}', f'ivol[{ph!r},{key!r}] = {np.asarray(got.to_array() if hasattr(got, "to_array") else got).tolist()} but positional model gives {np.asarray(exp).tolist()}')
+                        rec.hit('vol')
+                    elif what == 'vol-write':
+                        if hasgroup:
+                            # documented refusal: a scalar cannot be distributed over a group by volume; per-member arrays are accepted
+                            try: st.ivol[k] = 0.5
+                            except AttributeError: rec.refuse('volumetric group write refused (cannot set groups by volumetric flow)')
+                            D1[:] = dense_of(st.imol); continue
+                        pos = flat(r)
+                        val = round(10 ** rng.uniform(-3, 1), 5) if r[0] == 'scalar' else [round(10 ** rng.uniform(-3, 1), 5) if rng.random() < 0.85 else 0.0 for _ in pos]
+                        st.ivol[k] = val
+                        for m_, i in enumerate(pos): D1[i] = (val if r[0] == 'scalar' else val[m_]) / V[i]
+                        rec.check(same(dense_of(st.imol), D1, rel=1e-12), 'vol', f'write/data/{form}', f'after ivol[{key!r}] = {val!r}: molar data {dense_of(st.imol).tolist()} but model {D1.tolist()}')
+                        back = st.ivol[k]
+                        rec.check(same(back, val, rel=1e-12), 'vol', f'write/read-back/{form}', f'after ivol[{key!r}] = {val!r}: read-back {np.asarray(back).tolist()}')
+                        rec.hit('vol:write')
+                    elif what == 'get_flow':
+                        units, basis, f = rng.choice([('kmol/hr', 'mol', 1.0), ('mol/hr', 'mol', 1000.0), ('kg/hr', 'wt', 1.0), ('g/hr', 'wt', 1000.0)])
+                        Dm = D1 if basis == 'mol' else D1 * S.chems.MW
+                        got = st.get_flow(units, k); exp = model_read(S, Dm, key)
+                        rec.check(same(got, np.asarray(exp) * f, rel=1e-12), 'unit-access', f'get_flow/{basis}/{form}', f'get_flow({units!r}, {key!r}) = {np.asarray(got.to_array() if hasattr(got, "to_array") else got).tolist()} but positional model gives {(np.asarray(exp) * f).tolist()}')
+                        rec.hit('unit-access')
+                    elif what == 'get_data':
+                        units, f = rng.choice([('kmol/hr', 1.0), ('mol/hr', 1000.0)])
+                        if rng.random() < 0.5 or key == '...':
+                            got = st.imol.get_data(units, *(() if key == '...' else (k,))); exp = model_read(S, D1, key)
+                        else:
+                            ph = rng.choice(mphases); got = ms.imol.get_data(units, ph, k); exp = model_read(S, D2[mphases.index(ph)], key)
+                        rec.check(same(got, np.asarray(exp) * f, rel=1e-12), 'unit-access', f'get_data/{form}', f'get_data({units!r}, {key!r}) = {np.asarray(got.to_array() if hasattr(got, "to_array") else got).tolist()} but positional model gives {(np.asarray(exp) * f).tolist()}')
+                        rec.hit('unit-access')
+                    else:
+                        units, basis, f = rng.choice([('kmol/hr', 'mol', 1.0), ('mol/hr', 'mol', 1000.0), ('kg/hr', 'wt', 1.0), ('g/hr', 'wt', 1000.0)])
+                        if what == 'set_data': basis = 'mol'; units, f = rng.choice([('kmol/hr', 1.0), ('mol/hr', 1000.0)])
+                        pos = flat(r)
+                        if r[0] == 'scalar': val = round(10 ** rng.uniform(-1, 3), 3)
+                        elif r[0] == 'group': val = round(10 ** rng.uniform(-1, 3), 3)          # distributed by the group composition of the basis
+                        elif hasgroup: val = [round(10 ** rng.uniform(-1, 3), 3) for _ in r[1]]
+                        else: val = [round(10 ** rng.uniform(-1, 3), 3) if rng.random() < 0.9 else 0.0 for _ in r[1]]
+                        if what == 'set_flow': st.set_flow(val if r[0] in ('scalar', 'group') else np.array(val), units, k)
+                        else: st.imol.set_data(val if r[0] in ('scalar', 'group') else np.array(val), units, k)
+                        MW = S.chems.MW
+                        def put(i, v): D1[i] = (v / f) / (MW[i] if basis == 'wt' else 1.0)
+                        if r[0] == 'scalar': put(r[1], val)
+                        elif r[0] == 'group':
+                            for i, v in zip(r[1], val * S.groups[key][basis]): put(i, v)
+                        else:
+                            for m_, i in enumerate(r[1]):
+                                if isinstance(i, list):
+                                    for ii, vv in zip(i, val[m_] * S.groups[key[m_]][basis]): put(ii, vv)
+                                else: put(i, val[m_])
+                        rec.check(same(dense_of(st.imol), D1, rel=1e-11), 'unit-access', f'{what}/{basis}/{form}', f'after {what}({val!r}, {units!r}, {key!r}): molar data {dense_of(st.imol).tolist()} but model {D1.tolist()}')
+                        rec.hit('unit-access')
+                except Exception as e:
+                    rec.exception('vol' if what.startswith(('vol', 'mvol')) else 'unit-access', e, what=f'{what} with key {key!r} raised {type(e).__name__}: {str(e)[:150]}')
+                    D1[:] = dense_of(st.imol); D2[:] = dense_of(ms.imol)
+                D1[:] = dense_of(st.imol)          # judged to 1e-11 above; keep the model bit-identical to the data for the exact clauses that follow
+                e = sparse_invariant(st.imol.data)
+                rec.check(e is None, 'invariant', 'flows', f'sparse invariant after {what}: {e}')
+                p_chem.look(); p_mat.look()
+        elif t == 'define':
+            # aliases and groups defined while the caches are warm; a clash with a name of another chemical is rejected
+            what = op['what']
+            if what == 'alias':
+                p = rng.randrange(n); alias = f'{ids[p]}_late{rng.randrange(3)}'
+                try:
+                    S.add_alias(ids[p], alias); later.append(('alias', (ids[p], alias)))
+                    rec.check(S.chems.index(alias) == p and same(st.imol[alias], D1[p]) and same(ms.imol[alias], D2[:, p].sum()), 'late-alias', 'resolves', f'alias {alias!r} defined after {len(S.chems._index_cache)} cached lookups does not resolve to position {p}')
+                    if n >= 2:
+                        q = (p + 1) % n
+                        check_read_single([alias, ids[q]], False, 'late-alias'); check_read_multi([ids[q], alias], False, 'phase', rng.choice(mphases), 'late-alias')
+                    rec.hit('late-alias')
+                except Exception as e:
+                    rec.exception('late-alias', e, what=f'defining / using alias {alias!r} mid-history raised {type(e).__name__}: {str(e)[:150]}')
+            elif what == 'group':
+                name = f'LateGrp{len(S.groups)}'
+                members = rng.sample(ids, rng.randrange(1, min(3, n) + 1))
+                g = {'name': name, 'members': members, 'comp': None if rng.random() < 0.4 else [round(rng.uniform(0.1, 2), 3) for _ in members], 'wt': rng.random() < 0.5}
+                # a tuple of the members is looked up (and cached) before the group exists
+                check_read_single(list(members), False, 'late-group')
+                try:
+                    S.add_group(g); later.append(('group', g))
+                    check_read_single(name, False, 'late-group'); check_read_single(list(members), False, 'late-group')
+                    check_read_multi([name] + [i for i in ids if i not in members][:1], False, 'phase', rng.choice(mphases), 'late-group')
+                    rec.hit('late-group')
+                except Exception as e:
+                    rec.exception('late-group', e, what=f'defining / using group {name!r} mid-history raised {type(e).__name__}: {str(e)[:150]}')
+            elif n >= 2:
+                p, q = rng.sample(range(n), 2); taken = rng.choice(S.names[q])
+                before = dict(S.chems._index)
+                try:
+                    S.chems.set_alias(ids[p], taken)
+                    rec.check(False, 'alias-clash', 'accepted', f'set_alias({ids[p]!r}, {taken!r}) accepted although {taken!r} is a name of {ids[q]!r}; index now {S.chems.index(taken)}')
+                except ValueError:
+                    rec.check(dict(S.chems._index) == before and S.chems.index(taken) == q and taken not in S.chems[ids[p]].aliases, 'alias-clash', 'tables-unchanged', f'a rejected alias {taken!r} for {ids[p]!r} still changed the name table')
+                except Exception as e:
+                    rec.exception('alias-clash', e, what=f'set_alias with a name claimed by another chemical raised {type(e).__name__} (documented: ValueError): {str(e)[:120]}')
+                check_read_single([taken, S.names[p][0]], False, 'alias-clash')
+        elif t == 'oreads':
+            # read keys with a repeated chemical, a group next to one of its members, the same group twice
+            for _ in range(op['n']):
+                k_ = rng.randrange(2, 5); key = []
+                for _i in range(k_):
+                    if S.groups and rng.random() < 0.35: key.append(rng.choice(list(S.groups)))
+                    else: key.append(rng.choice(S.names[rng.randrange(n)]))
+                if rng.random() < 0.5: key[-1] = key[0]
+                if S.groups and rng.random() < 0.4:
+                    g_ = rng.choice(list(S.groups)); key[0] = g_; key[-1] = rng.choice(S.names[rng.choice(S.groups[g_]['idx'])])
+                as_list = rng.random() < 0.3
+                if rng.random() < 0.5: check_read_single(key, as_list, 'read')
+                else: check_read_multi(key, as_list, rng.choice(['sum', 'phase', 'allphases']), rng.choice(phase_forms(rng.choice(mphases))), 'read')
+                rec.hit('read:overlap')
+                p_chem.look(); p_mat.look()
+        elif t == 'entry':
+            # the other name-to-position entry points
+            for _ in range(op['n']):
+                key = gen_key(rng, S); r = S.resolve(key); k = to_key(key)
+                try:
+                    gi = S.chems.get_index(k)
+                    exp = slice(None) if r[0] == 'all' else r[1]
+                    rec.check(gi == exp, 'entry-points', 'get_index', f'get_index({key!r}) = {gi!r} but the positional model gives {exp!r}')
+                    if r[0] != 'all':
+                        names = [key] if isinstance(key, str) else list(key)
+                        plain = [nm for nm in names if nm not in S.groups]
+                        av = S.chems.available_indices(plain + ['no_such_chemical_zz'])
+                        rec.check(av == [S.pos[nm] for nm in plain], 'entry-points', 'available_indices', f'available_indices({plain}) = {av}')
+                        for nm in plain:
+                            rec.check((nm in S.chems) and S.chems[nm] is S.chems.tuple[S.pos[nm]] and getattr(S.chems, nm, None) is S.chems.tuple[S.pos[nm]] if nm.isidentifier() else S.chems[nm] is S.chems.tuple[S.pos[nm]],
+                                      'entry-points', 'getitem-contains', f'chemicals[{nm!r}] / in / attribute access do not give the chemical at position {S.pos[nm]}')
+                        if plain and len(set(S.pos[nm] for nm in plain)) == len(plain):
+                            vals = [round(10 ** rng.uniform(-1, 2), 3) for _ in plain]
+                            ref = np.zeros(n)
+                            for nm, v in zip(plain, vals): ref[S.pos[nm]] = v
+                            a1 = S.chems.array(plain, vals); a2 = S.chems.kwarray(dict(zip(plain, vals))); a3 = S.chems.iarray(plain, vals).data; a4 = S.chems.ikwarray(dict(zip(plain, vals))).data
+                            rec.check(all(same(a, ref, rel=0) for a in (a1, a2, a3, a4)), 'entry-points', 'array-builders', f'array/kwarray/iarray/ikwarray of {dict(zip(plain, vals))} differ from the positional array {ref.tolist()}')
+                    ph = rng.choice(mphases); row = D2[mphases.index(ph)]
+                    exp = model_read(S, row, key)
+                    g1 = ms[ph].imol[k]; g2 = ms.imol.get_phase(ph)[k]
+                    rec.check(same(g1, exp) and same(g2, exp), 'entry-points', 'phase-proxy', f'ms[{ph!r}].imol[{key!r}] = {g1!r}, imol.get_phase({ph!r})[{key!r}] = {g2!r} but the positional model gives {np.asarray(exp).tolist()}')
+                    allph = tuple(dict.fromkeys(list(mphases) + [q for q in 'gls' if q not in mphases and q.upper() not in mphases]))
+                    mi = ms.imol.to_material_indexer(allph)
+                    newph = list(mi.phases)
+                    exp2 = np.zeros((len(newph), n))
+                    for i_, q in enumerate(mphases): exp2[newph.index(q)] = D2[i_]
+                    rec.check(sorted(newph) == sorted(allph) and same(mi.data, exp2, rel=0) and same(mi[ph, k], exp), 'entry-points', 'to_material_indexer', f'to_material_indexer({allph}) has phases {newph} and data {mi.data.to_array().tolist()} expected {exp2.tolist()}')
+                    rec.check(same(dense_of(ms.imol), D2), 'entry-points', 'source-untouched', 'to_material_indexer / phase proxies changed the source data')
+                    rec.hit('entry-points')
+                except Exception as e:
+                    rec.exception('entry-points', e, what=f'entry point with key {key!r} raised {type(e).__name__}: {str(e)[:150]}')
+                p_chem.look(); p_mat.look()
+        elif t == 'bad':
+            # undefined names / phases inside a history: they raise the documented errors and leave every later lookup unaffected
+            for _ in range(op['n']):
+                good = gen_key(rng, S); bad = 'no_such_chemical_' + str(rng.randrange(50))
+                badph = rng.choice([q for q in 'xyzq' if q not in mphases])
+                form = rng.choice(['S-name', 'S-tuple', 'M-name', 'M-phase-name', 'M-bad-phase', 'M-bad-phase-only', 'S-write', 'chemicals.index'])
+                plain = [good] if isinstance(good, str) else [i for i in good]
+                if good == '...': plain = [ids[0]]
+                snap1 = dense_of(st.imol); snap2 = dense_of(ms.imol)
+                try:
+                    if form == 'S-name': st.imol[bad]
+                    elif form == 'S-tuple': st.imol[tuple(plain + [bad])]
+                    elif form == 'M-name': ms.imol[bad]
+                    elif form == 'M-phase-name': ms.imol[rng.choice(mphases), tuple([bad] + plain)]
+                    elif form == 'M-bad-phase': ms.imol[badph, to_key(good)]
+                    elif form == 'M-bad-phase-only': ms.imol[badph]
+                    elif form == 'S-write': st.imol[tuple(plain + [bad])] = 1.0
+                    else: S.chems.index(bad)
+                    rec.refuse(f'undefined key accepted without error ({form}; not judged)')
+                except (UndefinedChemicalAlias, UndefinedPhase):
+                    rec.hit('bad-key')
+                except Exception as e:
+                    rec.refuse(f'undefined key rejected through {type(e).__name__} ({form}; not judged)')
+                # nothing was written, nothing was cached: the same valid keys still resolve
+                rec.check(same(dense_of(st.imol), snap1, rel=0) and same(dense_of(ms.imol), snap2, rel=0), 'bad-key:then-read', 'data-untouched', f'a rejected lookup ({form}) changed the flow data')
+                if check_read_single(good, False, 'bad-key:then-read') and check_read_multi(good, False, 'phase', rng.choice(phase_forms(rng.choice(mphases))), 'bad-key:then-read'): pass
+                p_chem.look(); p_mat.look()
     rec.hit('evictions:chemicals-cache', p_chem.evictions)
     rec.hit('evictions:material-cache', p_mat.evictions)
     rec.notes.setdefault('max_cache_len_seen', {})
@@ -401,11 +767,17 @@ def run_case(case, rec):
 
 def gen_case(rng, tier, big):
     ids, groups = gen_setdef(rng)
-    phases = rng.choice(['lg', 'lgs', 'lL', 'gls', 'sl', 'glLs'])
+    phases = rng.choice(['lg', 'lgs', 'lL', 'gls', 'sl', 'glLs', 'lg', 'lgs', 'lL', 'gls', 'sl', 'glLs', 'l', 'g'])
     ops = [{'t': 'names'}]
     for _ in range(rng.randrange(3, 8)):
         t = rng.choices(['reads', 'writes', 'mix', 'twin', 'expand'], [4, 4, 2, 1, 1.5])[0]
         ops.append({'t': t, 'n': rng.randrange(3, 25)} if t not in ('mix', 'expand') else {'t': t})
+    # added operation kinds, interleaved at random positions of the history
+    for _ in range(rng.randrange(2, 7)):
+        t = rng.choices(['ewrites', 'split', 'flows', 'define', 'oreads', 'entry', 'bad'], [2, 2, 2, 2.5, 1.5, 1.5, 1.5])[0]
+        op = {'t': t, 'n': rng.randrange(3, 15)}
+        if t == 'define': op['what'] = rng.choice(['alias', 'group', 'clash'])
+        ops.insert(rng.randrange(1, len(ops) + 1), op)
     if big and len(ids) >= 5:
         nflood = 700 if tier == 'quick' else 3000
         ops.insert(rng.randrange(1, len(ops)), {'t': 'flood', 'tgt': 'S', 'n': nflood})
